@@ -111,7 +111,7 @@ def t_relabel(spec, rng):
     go(tree)
     s = _with_tree(spec, tree)
     s["seqs"] = {ren[t]: v for t, v in spec["seqs"].items()}
-    s["rules"] = [dict(r, edge=ren.get(r["edge"], r["edge"])) if "edge" in r else r for r in spec["rules"]]
+    s["rules"] = X.rename_rules(spec["rules"], ren)
     return s, 1
 
 
@@ -141,7 +141,7 @@ def t_relabel_permute(spec, rng):
     s = _with_tree(spec, _tree_from_cogent(tree))
     full = {t: ren.get(t, t) for t in tips}
     s["seqs"] = {full[t]: v for t, v in spec["seqs"].items()}
-    s["rules"] = [dict(r, edge=full.get(r["edge"], r["edge"])) if "edge" in r else r for r in spec["rules"]]
+    s["rules"] = X.rename_rules(spec["rules"], full)
     s["how"] = f"{kind}:{'nodes' if with_nodes else 'all'}"
     return s, 1
 
@@ -287,8 +287,12 @@ TRANSFORMS = {
     "columns": t_columns, "seq_order": t_seq_order, "children": t_children, "repeat": t_repeat,
     "relabel": t_relabel, "relabel_permute": t_relabel_permute, "reroot": t_reroot, "split": t_split, "unrooted": t_unrooted,
     "midpoint": t_midpoint, "root_on_edge": t_root_on_edge,
-    "state_perm": X.t_state_perm, "contract": X.t_contract, "bifurcating": X.t_bifurcating,
+    "state_perm": X.t_state_perm, "contract": X.t_contract, "bifurcating": X.t_bifurcating, "scope_explicit": X.t_scope_explicit,
 }
+# relations that change the topology or read the rules edge by edge work on the problem with its clade / edge-list scoped
+# rules resolved to per-edge rules (independent resolution, X.scope_edges); that the two problems are the same one is the
+# relation scope_explicit
+ON_RESOLVED = ("split", "unrooted", "midpoint", "root_on_edge", "state_perm", "contract", "bifurcating")
 REVERSIBLE_ONLY = ("reroot", "unrooted", "midpoint", "root_on_edge")
 CONTINUOUS_ONLY = ("split", "unrooted", "midpoint", "root_on_edge", "contract", "bifurcating")
 SHADOWED = ("reroot", "split", "children", "unrooted", "midpoint", "root_on_edge", "state_perm", "contract", "bifurcating")
@@ -305,12 +309,25 @@ def applicable(spec, name):
 def jobs_for(base, rng, full):
     """the list of (relation name, thunk) run on one base problem"""
     jobs = []
+    rb = X.resolved(base)
+
+    def on(t, f):
+        """run transform f on the resolved problem when the relation needs per-edge rules, and say which problem is the original"""
+        if rb is base or t not in ON_RESOLVED:
+            return lambda: f(base)
+
+        def thunk():
+            r = f(rb)
+            return r if r is None or len(r) > 2 else (r[0], r[1], rb)
+
+        return thunk
+
     for t in ("columns", "seq_order", "children", "children", "repeat", "relabel", "relabel_permute", "relabel_permute", "unrooted", "midpoint",
-              "root_on_edge", "root_on_edge", "state_perm", "state_perm", "contract", "contract", "bifurcating"):
+              "root_on_edge", "root_on_edge", "state_perm", "state_perm", "contract", "contract", "bifurcating", "scope_explicit"):
         if applicable(base, t):
-            jobs.append((t, (lambda t=t: TRANSFORMS[t](base, rng))))
+            jobs.append((t, on(t, lambda b, t=t: TRANSFORMS[t](b, rng))))
     if applicable(base, "unrooted"):
-        jobs.append(("unrooted", (lambda: t_unrooted(base, rng, flip=True))))
+        jobs.append(("unrooted", on("unrooted", lambda b: t_unrooted(b, rng, flip=True))))
     if applicable(base, "reroot"):
         for how, name in reroot_targets(base):
             jobs.append(("reroot", (lambda how=how, name=name: t_reroot_to(base, how, name))))
@@ -320,7 +337,7 @@ def jobs_for(base, rng, full):
         inner = [c for _, c in edges if c["children"]]
         chosen = edges and [c for _, c in edges] if full else ([rng.choice(pend)] + ([rng.choice(inner)] if inner else []) + [rng.choice(edges)[1], rng.choice(edges)[1]])
         for c in chosen:
-            jobs.append(("split", (lambda c=c: t_split_edge(base, c["name"], _rand_piece(rng, c["len"]), rng.random() < 0.5))))
+            jobs.append(("split", on("split", lambda b, c=c: t_split_edge(b, c["name"], _rand_piece(rng, c["len"]), rng.random() < 0.5))))
     return jobs
 
 
@@ -340,7 +357,9 @@ def _rel_sig(tname, base, spec2):
         t = "relabel_permute-" + str(spec2.get("how", "")).split(":")[0]
     elif tname == "contract":
         t = "contract-" + ("star" if spec2.get("contracted_all") else "root-child" if spec2.get("contracted_at_root") else "deeper")
-    return f"rel:{t}:{base['kind']}:bins={'y' if base.get('bins', 1) > 1 else 'n'}" + (":tied-rate-terms" if base.get("adversarial") and "zero-length-edge" not in t else "")
+    return (f"rel:{t}:{base['kind']}:bins={'y' if base.get('bins', 1) > 1 else 'n'}"
+            + (":tied-rate-terms" if base.get("adversarial") and "zero-length-edge" not in t else "")
+            + (":scoped-by-tips" if base.get("scope_rules") and not base.get("resolved_scopes") and "zero-length-edge" not in t else ""))
 
 
 def _slack(lf):
@@ -385,14 +404,14 @@ def _adversarial_rules(rng, name):
     return [dict(par_name=p, init=rng.choice(pool)) for p in pnames]
 
 
-def _pairs(ctx, rng, plan, out, collect=None, only=None, adversarial=False):
+def _pairs(ctx, rng, plan, out, collect=None, only=None, adversarial=False, force_scope=False):
     """for every base problem run the applicable relations on the real implementation.
     plan: [(model name, max number of relations or None for all)]"""
     for name, limit in plan:
         kind = U.kind_of(name)
         small = kind in ("codon", "protein")
-        base = U.rand_problem(rng, name, ntips=rng.randint(3, 5) if small else None, ncols=rng.randint(3, 8) if small else None,
-                              root_deg=2 if rng.random() < 0.45 else None)
+        base = U.rand_problem(rng, name, ntips=rng.randint(3, 5) if small else (rng.randint(5, 7) if force_scope else None),
+                              ncols=rng.randint(3, 8) if small else None, root_deg=2 if rng.random() < 0.45 else None)
         if not base["mprobs"]:
             # motif probabilities estimated from the alignment use a pseudocount, i.e. are a different *parameter value*
             # after repeating columns; the relations are between runs with identical parameters
@@ -406,6 +425,12 @@ def _pairs(ctx, rng, plan, out, collect=None, only=None, adversarial=False):
                 lf0 = U.build_lf(base, None)
             else:
                 lf0 = U.build_lf(base, rng)  # generates the rules
+                if (force_scope or rng.random() < 0.8) and X.add_scope_rules(base, rng):
+                    lf0 = U.build_lf(base, None)
+                    bump(out, "scope_rules", X.scope_kind(base))
+                    for r in base["rules"]:
+                        if "tip_names" in r:
+                            bump(out, "outgroup_vs_lca_as_rooted", X.outgroup_layout(base["tree"], r))
             l0 = float(lf0.lnL)
             slack0 = _slack(lf0)
         except Exception as e:
@@ -539,6 +564,12 @@ def spec_check(ctx, budget):
     n_adv = (8 if budget <= 1 else 4 * budget) * (3 if ctx.thorough else 1)
     adv = [(("GN", "GN", "GN", "ssGN")[(i // 2) % 4] if i % 2 == 0 else nuc[(i + ctx.seed) % len(nuc)], None) for i in range(n_adv)]
     _pairs(ctx, rng, adv, out, only=("split", "root_on_edge", "reroot", "midpoint"), adversarial=True)
+    # parameters scoped by a clade specification (tip_names + outgroup_name, clade / stem) or an edge list, 5-7 tips: EVERY root
+    # placement, the independently resolved scope, children order, tips renamed (the rule's names renamed with them)
+    with_params = [m for m in nuc if getattr(U.get_sm(m), "predicate_masks", None)]
+    n_sc = (6 if budget <= 1 else 3 * budget) * (3 if ctx.thorough else 1)
+    sc = [(with_params[(i + ctx.seed) % len(with_params)], None) for i in range(n_sc)]
+    _pairs(ctx, rng, sc, out, only=("reroot", "scope_explicit", "children", "relabel", "relabel_permute"), force_scope=True)
     return out
 
 
@@ -558,6 +589,7 @@ def _hypotheses(ctx, specs, rng, out, limit):
         if spec["model"] in U.DISCRETE or any(k in spec for k in ("split_edge", "how", "merged_zero", "has_zero", "contracted", "added_edges")):
             continue
         done += 1
+        spec = X.resolved(spec)
         rev = spec["model"] not in NONREV
         try:
             lf = U.build_lf(spec, None)
